@@ -387,3 +387,15 @@ def run(ck):
         c12_4(ck, prog)
         c12_5(ck, prog)
         c12_6(ck, prog)
+        # header edits marshal with the message's own byte order (shared with C02.5)
+        from rules.C02 import c02_5
+        r7 = ck.rule('C12.7', 'every marshalling call a header edit makes on the message\'s own bytes is given the '
+                     'byte order read from the message (shared with C02.5)', 'TAB',
+                     breaks='adding a field to a message that was byte-swapped in place writes it in the wrong byte '
+                            'order: the header no longer parses', floor=12)
+        save = ck.rule
+        ck.rule = lambda *a, **k: r7
+        try:
+            c02_5(ck, prog)
+        finally:
+            ck.rule = save
